@@ -91,7 +91,7 @@ XLINK = 'http://www.w3.org/1999/xlink'
 MARKUP = ('<DIV ID="Top" Class="Xy"><P TITLE="Xy" type="Xy">t</P><input TYPE="CheckBox" CHECKED="checked" Value="V"/>'
           '<a HREF="#" hreflang="EN">l</a><Span data-K="xY">s</Span>'
           '<svg xmlns:xlink="%s" viewBox="0 0 1 1"><use xlink:href="#u" xlink:Title="T"/><foreignObject><p>f</p></foreignObject>'
-          '<linearGradient id="lg"/></svg></DIV>' % XLINK)
+          '<linearGradient id="lg"/><g type="simple" xlink:type="SIMPLE"/><g xlink:type="simple" type="SIMPLE"/></svg></DIV>' % XLINK)
 # a plain XML document (not XHTML) that embeds XHTML-namespaced elements: HTML-only pseudo-classes must still never match
 EMBED = ('<feed xmlns="urn:atom"><entry><div xmlns="http://www.w3.org/1999/xhtml" dir="rtl"><input type="checkbox" checked="checked"/>'
          '<a href="#">l</a><p dir="ltr">t</p></div></entry></feed>')
@@ -121,6 +121,13 @@ def trace_part(chk, tier):
     for spec in ({'t': 'pfx', 'p': cps('x')}, {'t': 'any'}):
         for an in ('href', 'HREF', 'Href', 'title', 'Title', 'viewBox', 'viewbox', 'VIEWBOX', 'data-K', 'data-k'):
             nssels.append([{'cs': [[{'k': 'attr', 'ns': spec, 'name': nm(an), 'op': 'ex', 'val': [], 'flag': 'n'}]], 'cb': []}])
+    # the `type` attribute twice on one element (no namespace / xlink), values differing in case only: which attribute is looked at and how its
+    # value compares (exactly in XML / XHTML, ASCII-case-insensitively in HTML) are decided together
+    for spec in ({'t': 'pfx', 'p': cps('x')}, {'t': 'any'}, gen.BARE):
+        for val in ('simple', 'SIMPLE', 'Simple'):
+            for fl in ('n', 'i', 's'):
+                for op in ('eq', 'ne'):
+                    nssels.append([{'cs': [[{'k': 'attr', 'ns': spec, 'name': nm('type'), 'op': op, 'val': nm(val), 'flag': fl}]], 'cb': []}])
     for parser in ('html.parser', 'lxml', 'html5lib', 'xml'):
         for variant in ('plain', 'xhtml', 'embed'):
             if variant != 'plain' and parser != 'xml':
